@@ -545,4 +545,81 @@ theorem leastConn_never_runs_out_of_draws (pool : Pool) (ds : List Nat) (h : poo
     (selLeastConn pool ds).1 ≠ .starved :=
   lcGo_not_starved pool 0 .none 0 none ds (by simp) h
 
+/-! ## non-vacuity: the hypotheses are met by concrete non-trivial instances (kernel-evaluated) -/
+
+/-- healthy flag, passive failures 1 < 2, breaker closed, load 3 below the limit 4, hash `h` -/
+def exUp (id load h : Nat) : Up := ⟨id, true, 1, some 2, some true, load, 4, h⟩
+/-- unavailable: at its request limit -/
+def exFull (id : Nat) : Up := ⟨id, true, 0, none, none, 2, 2, 99⟩
+/-- unavailable: passive failures at the limit -/
+def exFailed (id : Nat) : Up := ⟨id, true, 2, some 2, none, 0, 0, 98⟩
+
+def exPool : Pool := [exFull 1, exUp 2 3 7, exFailed 3, exUp 4 1 9, exUp 5 1 5]
+
+-- available_iff: both directions are inhabited
+example : (exUp 2 3 7).avail = true ∧ (exFull 1).avail = false ∧ (exFailed 3).avail = false ∧
+    (⟨9, true, 0, none, some false, 0, 0, 0⟩ : Up).avail = false ∧ (⟨9, false, 0, none, none, 0, 0, 0⟩ : Up).avail = false := by decide
+
+-- select_returns_available: cookie → header(absent) → random_choose 2 returns upstream 3 of 5
+example : (select true (.cookie none (.randomChoose 2)) exPool [5, 3]).res = .sel 3 := by decide
+-- weightedRR_returns_available_with_positive_weight
+example : (selWRR [2, 1, 1, 0, 3] exPool 6).1 = .sel 4 := by decide
+
+-- select_some_if_any_available_partial: hypotheses hold on a four-level chain ending in round robin
+example : liveOK exPool (.cookie (some 77) (.keyed false (.keyed false (.rr 4294967000)))) = true ∧
+    anyAvail exPool = true := by decide
+example : liveOK exPool (.keyed true .first) = true ∧ liveOK exPool (.randomChoose 2) = true := by decide
+
+-- weightedRR_some_if_any_available_partial: both alternatives
+example : wrrOK exPool [0, 0, 1, 2, 0] = true ∧ (exPool[3]? = some (exUp 4 1 9) ∧ (exUp 4 1 9).avail = true ∧ [0, 0, 1, 2, 0][3]? = some 2) := by decide
+example : wrrOK exPool [5] = true ∧ anyAvail exPool = true := by decide
+
+-- select_never_panics_partial
+example : panicOK exPool (.keyed false (.wrr [1, 1, 1, 1, 1] 3)) = true ∧
+    nilSafe true (.cookie none (.keyed false (.wrr [1, 1, 1, 1, 1] 3))) = true ∧
+    nilSafe true (.keyed false (.cookie none .first)) = false := by decide
+
+-- first_is_earliest
+example : selFirst exPool = .sel 1 := by decide
+
+-- roundRobin_next_partial: from counter 6 (position 1) the next available position is 3, counter 8
+example : 6 + exPool.length < u32 ∧ anyAvail exPool = true ∧ selRR exPool 6 = (.sel 3, 8) := by decide
+-- roundRobin_none
+example : anyAvail [exFull 1, exFailed 2] = false ∧ selRR [exFull 1, exFailed 2] 5 = (.none, 7) := by decide
+
+-- leastConn_minimal: loads 3,1,1 among the available → one of the two with load 1 (draw decides)
+example : (selLeastConn exPool [0]).1 = .sel 4 ∧ (selLeastConn exPool [1]).1 = .sel 3 := by decide
+
+-- randomChoose_minimal: three available upstreams, choose 2; the third replaces reservoir slot 0
+-- (draw 0 → Intn(3) = 0): candidates are upstreams 4 and 3 (loads 1, 1); the draw 2^32 picks the second
+example : (selRandomChoose 2 exPool [0, 4294967296]).1 = .sel 3 := by decide
+example : (selRandomChoose 2 exPool [8589934592]).1 = .sel 3 := by decide
+
+-- weightedRR_honours_weights_partial: all available, weights 2,0,3; counter 0..4 → 0,2,2,2,0
+def exAll : Pool := [exUp 1 0 0, exUp 2 0 0, exUp 3 0 0]
+example : (∀ v ∈ exAll, v.avail = true) ∧ [2, 0, 3].length = exAll.length ∧ 0 < [2, 0, 3].sum := by decide
+example : (run 5 (.wrr [2, 0, 3] 0) exAll []).1.map (·.1) = [.sel 0, .sel 2, .sel 2, .sel 2, .sel 0] := by decide
+
+-- hash: upstream 3 (hash 9) wins; it survives removal / failure of the others; a new upstream with hash 8 changes nothing
+example : selHash exPool = .sel 3 ∧ hashPick exPool = some (exUp 4 1 9) := by decide
+example : hashPick [exUp 2 3 7, exUp 4 1 9] = some (exUp 4 1 9) ∧
+    hashPick [exFull 1, exUp 2 3 7, exFailed 3, exUp 4 1 9, exFull 5] = some (exUp 4 1 9) ∧
+    hashPick [exFull 1, exUp 6 0 8, exUp 2 3 7, exFailed 3, exUp 4 1 9, exUp 5 1 5] = some (exUp 4 1 9) ∧
+    hashPick [exFull 1, exUp 6 0 11, exUp 2 3 7, exFailed 3, exUp 4 1 9, exUp 5 1 5] = some (exUp 6 0 11) := by decide
+-- hash_sticky: loads and draws differ, availability and hashes agree
+example : (select true .hash exPool [1, 2]).res = (select false .hash [exFull 1, exUp 2 0 7, exFailed 3, exUp 4 2 9, exUp 5 0 5] []).res := by decide
+
+-- keyed
+example : (select true (.keyed true (.rr 0)) exPool []).res = .sel 3 ∧ (select true (.keyed false (.rr 0)) exPool []).res = .sel 1 := by decide
+
+-- cookie: a valid cookie for dial 5 is followed (no draw used, no cookie written); an invalid one (dial 3 is
+-- unavailable) falls back to random and writes the cookie of the selected upstream; sent back, it is followed
+example : select true (.cookie (some 5) .random) exPool [7] = ⟨.sel 4, [], .cookie (some 5) .random, [7]⟩ := by decide
+example : (select true (.cookie (some 3) .random) exPool [0, 1, 1]).res = .sel 1 ∧
+    (select true (.cookie (some 3) .random) exPool [0, 1, 1]).cookies = [2] ∧
+    (select true (.cookie (some 2) .random) exPool []).res = .sel 1 := by decide
+
+-- the draw list: one draw per upstream is enough
+example : (selRandom exPool [3, 1, 2, 0, 0]).1 = .sel 3 ∧ (selRandom exPool [3]).1 = .starved := by decide
+
 end CaddyModel.C08
